@@ -25,7 +25,7 @@ def sh(cmd, **kw):
 
 def summary(out):
     m = re.findall(r"Summary.*", out)
-    fails = sorted(set(re.findall(r"^\s+(?:FAIL|SIGABRT|SIGSEGV|TIMEOUT)\s+\[[^\]]*\]\s+(?:\(\S+\)\s+)?(\S+ \S+)", out, re.M)))
+    fails = sorted(set(re.findall(r"^\s+(?:FAIL|SIGABRT|SIGSEGV|TIMEOUT)\s+\[[^\]]*\]\s+(?:\(\s*\d+/\d+\)\s+)?(\S+ \S+)", out, re.M)))
     return (m[-1] if m else "no summary"), fails
 
 
